@@ -14,7 +14,7 @@ use crate::rt::{Gran, Policy};
 use crate::spec::{Kind, Native, Spec};
 
 fn menu_cfg(depth_cap: usize, prop: &str) -> Cfg {
-	Cfg { gran: Gran::ApiCall, bfs: true, depth_cap, no_deadlock_report: true, stop_at_first: false, verdict_props: vec![prop.to_string()], ..Cfg::default() }
+	Cfg { gran: Gran::ApiCall, bfs: true, depth_cap, no_deadlock_report: true, stop_at_first: false, verdict_props: vec![prop.to_string()], cut_props: ["C01", "C02", "C03", "C04", "C05", "C06", "C11"].iter().map(|s| s.to_string()).collect(), state_cap: 600_000, ..Cfg::default() }
 }
 
 fn acq_actions(targets: &[(usize, bool)], scoped: bool, panics: bool, tries: bool) -> Vec<MAct> {
@@ -216,7 +216,7 @@ pub fn check_c10(tier: &str) -> ! {
 	c10_menu(&mut rep, tier);
 	// concurrent part: all interleavings at raw-operation granularity
 	let progs = crate::families::fam_poison(tier == "thorough");
-	let cfg = Cfg { verdict_props: vec!["C10".into()], ..Cfg::default() };
+	let cfg = Cfg { verdict_props: vec!["C10".into()], post_release_points: true, ..Cfg::default() };
 	let t = std::time::Instant::now();
 	let fr = run_family("P", &progs, &cfg);
 	eprintln!("  family P programs={} states={} transitions={} found={} [{:.1}s]", fr.programs, fr.stats.states, fr.stats.transitions, fr.found.len(), t.elapsed().as_secs_f64());
